@@ -129,6 +129,7 @@ type ScriptFS struct {
 	AuthInitErr  func(inv *Inv) bool
 	AuthCheckErr func(inv *Inv) bool
 	AuthHold     func(inv *Inv) bool // park this AuthRead / AuthWrite until released
+	DestroyHold  func(inv *Inv) bool // park this FidDestroy until released
 	Dotu         func(conn int) bool // negotiated dialect per connection, for expected replies
 	// flush hook: called when the implementation's Flush sees target
 	flushes []*Inv
@@ -431,7 +432,15 @@ func (f *ScriptFS) FidDestroy(fid *go9p.SrvFid) {
 	if fid != nil {
 		ci = f.connIdx(fid.Fconn)
 	}
-	f.Log = append(f.Log, &Inv{Seq: len(f.Log), Step: rt.Step(), Op: "fiddestroy", Conn: ci, FidP: fid, User: userID(fid)})
+	inv := &Inv{Seq: len(f.Log), Step: rt.Step(), Op: "fiddestroy", Conn: ci, FidP: fid, User: userID(fid)}
+	f.Log = append(f.Log, inv)
+	if f.DestroyHold != nil && f.DestroyHold(inv) {
+		// an implementation that is slow to let go of a fid
+		inv.Held = true
+		f.x.Fault("hold")
+		rt.YieldUntil(rt.SiteHold, func() bool { return f.released(inv) })
+		inv.Held = false
+	}
 }
 
 // Held returns the invocations currently parked (sorted by sequence).
